@@ -423,8 +423,14 @@ func (g *gen) tree(comps []string, depth, maxDepth int, bn []string) []*node {
 	}
 	if rng.Chance(60) && len(bn) > 0 {
 		k := byte('f')
-		if rng.Chance(6) {
-			k = "dls"[rng.Intn(3)]
+		switch x := rng.Intn(100); { // BUILD files that are symlinks (to a regular file elsewhere) are packages too
+		case x < 14:
+			k = 's'
+			g.r.Count("gen:BUILD-is-symlink-to-file")
+		case x < 17:
+			k = 'l'
+		case x < 20:
+			k = 'd'
 		}
 		if k != 'd' || depth < maxDepth {
 			add(&node{name: lib.Pick(rng, bn), kind: k})
@@ -548,6 +554,7 @@ func exhaustive(r *lib.Run) {
 		func() *node { return pkg("a") },
 		func() *node { return pkg("a", pkg("ab")) },
 		func() *node { return &node{name: "a", kind: 'l'} },
+		func() *node { return &node{name: "a", kind: 'd', kids: []*node{{name: "BUILD", kind: 's'}}} }, // BUILD is a symlink to a file
 	}
 	abShapes := []func() *node{
 		func() *node { return nil },
